@@ -4,6 +4,7 @@ import (
 	"context"
 	"fmt"
 	"runtime/debug"
+	"strconv"
 	"strings"
 	"sync"
 	"time"
@@ -457,8 +458,15 @@ func (r *Resp) Location() string {
 	return ""
 }
 
-// IsRedirect reports a 302 with a Location.
-func (r *Resp) IsRedirect() bool { return r.Denied && r.HTTPStatus == 302 && r.Location() != "" }
+// IsRedirect reports a redirect: a 3xx status that browsers follow, with a Location (the properties speak of
+// redirects, not of a particular status code).
+func (r *Resp) IsRedirect() bool {
+	switch r.HTTPStatus {
+	case 301, 302, 303, 307, 308:
+		return r.Denied && r.Location() != ""
+	}
+	return false
+}
 
 func (r *Resp) String() string {
 	switch {
@@ -473,7 +481,7 @@ func (r *Resp) String() string {
 		if len(l) > 60 {
 			l = l[:60] + "..."
 		}
-		return fmt.Sprintf("%v/302->%s", r.Code, l)
+		return fmt.Sprintf("%v/%d->%s", r.Code, r.HTTPStatus, l)
 	}
 	return fmt.Sprintf("%v/http%d", r.Code, r.HTTPStatus)
 }
@@ -541,6 +549,23 @@ type SetCookie struct {
 	Name, Value string
 	Attrs       map[string]string // lower-case attribute name -> value ("" for flags)
 	Raw         string
+}
+
+// Expired reports whether the Set-Cookie removes the cookie from the browser: Max-Age <= 0 or an Expires date in
+// the past (RFC 6265 5.3; Max-Age wins when both are present).
+func (sc SetCookie) Expired() bool {
+	if ma, ok := sc.Attrs["max-age"]; ok {
+		n, err := strconv.Atoi(strings.TrimSpace(ma))
+		return err == nil && n <= 0
+	}
+	if ex, ok := sc.Attrs["expires"]; ok {
+		for _, layout := range []string{time.RFC1123, "Mon, 02-Jan-2006 15:04:05 MST", time.RFC850, time.ANSIC, "Mon, 02 Jan 2006 15:04:05 GMT"} {
+			if t, err := time.Parse(layout, ex); err == nil {
+				return t.Before(time.Now())
+			}
+		}
+	}
+	return false
 }
 
 // ParseSetCookie parses per RFC 6265 §5.2 (first '=' splits name/value; attributes after ';').
@@ -619,7 +644,7 @@ func (b *Browser) absorb(r *Resp) {
 		if sc.Name == "" {
 			continue
 		}
-		if ma, ok := sc.Attrs["max-age"]; ok && (ma == "0" || strings.HasPrefix(ma, "-")) {
+		if sc.Expired() {
 			delete(b.Jar, sc.Name)
 			for i, n := range b.Order {
 				if n == sc.Name {
